@@ -2,6 +2,7 @@
 Bound: <= 4 disjoint top-level prefixes, <= 3 remotes (prefixes may share a remote), <= 3 entries per prefix (files or
 directory objects with <= 3 files, depth <= 2); n layouts per run (seeded)."""
 import logging; logging.disable(logging.CRITICAL)
+import _memfs  # noqa: E402
 import hashlib, json, os, random, sys, tempfile
 SRC = os.environ.get("PYVC_REPO_SRC", "/repo/src")
 sys.path.insert(0, SRC)
@@ -147,6 +148,7 @@ def main(n, seed):
 
     KINDS = ["shared-content-indexed", "nested-prefix-first", "partial-cache", "fault-in-one-remote", "verifying-remote-corrupt", "remote-reset-with-index"]
     for case in range(n):
+        _memfs.reset()
         if case % 5 == 4:
             kind = KINDS[(case // 5) % len(KINDS)]
             try:
